@@ -7,11 +7,11 @@ import typing as t
 
 from .. import astq
 from ..cfg import cfg_of
-from ..effects import INF, MODEL_DOC, PS, ZERO, Effects, Flow, Site, codec_call, const_int, const_text
+from ..effects import _ASCII_CODECS, _ASCII_COMPATIBLE, _LATIN1_CODECS, INF, MODEL_DOC, PS, ZERO, Effects, Flow, Site, _arg, _opaque_args, codec_call, codec_parts, const_int, const_text
 from ..fold import Folder
 from ..loader import AnalysisError, ClassInfo, FuncInfo, dotted, norm, walk_no_nested
 from ..report import Ctx
-from .c07_reviewed import A, p_form_parser_silent, review
+from .c07_reviewed import A, _kw_table, p_form_parser_silent, review
 
 LEVEL_TEXT = (
     "Static exception-effect analysis for C07 on /repo's current source. Entry points are enumerated from the source: the "
@@ -19,7 +19,7 @@ LEVEL_TEXT = (
     "header_property and environ_property of sansio.Request and wrappers.Request. (R7.1) Over the resolved call graph from "
     "these entry points (incl. self.<property>.<method>() on the class the property's getter constructs and the "
     "io.RawIOBase read -> readall/readinto dispatch), every explicit raise and every modelled failing operation of "
-    "builtins/stdlib (int/float of a str, strict decode/encode in method or constructor spelling, base64, urlsplit/.port, parsedate_to_datetime, timedelta, "
+    "builtins/stdlib (int/float of a str, strict decode/encode in method, unbound-method (bytes.decode(x, ..)), constructor or codecs.decode / encode spelling, codec names by their aliases, base64, urlsplit/.port, parsedate_to_datetime, timedelta, "
     "next, index, split-unpack, constant index, Optional match, assert, Enum(value), to_bytes, and read(n)/bytearray(n)/"
     "bytes(n) whose size provably flows unbounded from a text->int conversion of client text, and the operations that move a "
     "datetime out of datetime.min..max - astimezone / utctimetuple, + / - a timedelta (also as +=), replace() of a date field, "
@@ -35,7 +35,14 @@ LEVEL_TEXT = (
     "dominating != / >= / < / is not None / truthiness test, with the path-wise facts below as a second opinion for a "
     "value unpacked from a helper's result) and the dominating conditions are compared as canonical atoms with "
     "local aliases / boolean flags expanded and a freshness check (no rebinding of a tested name between test and use), "
-    "including tests in the caller of a helper and the conditions of enclosing conditional expressions. A reviewed role "
+    "including tests in the caller of a helper and the conditions of enclosing conditional expressions. A strict encode to "
+    "ascii / latin-1 (and a decode of the bytes from ascii / utf-8) is discharged where the text is ASCII-only on every path: "
+    "a dominating test that means `is ASCII` (x.isascii() true, all(ord(c) < 128 for c in x), not any(ord(c) > 127 ..), a package "
+    "predicate whose only statement returns such a test of its parameter, in either polarity), or the value's origin (an "
+    "ASCII constant, the result of a strict ascii codec call, an ASCII-compatible codec call or an ASCII-preserving method "
+    "of an ASCII value, a piece of one, a package helper's return value), through locals, comprehension variables and the "
+    "argument at every call site; str.isdigit() / isdecimal() / isalnum() are not such tests (and no guard for int()). "
+    "A size given as `a if a < b else b` counts as min(a, b). A reviewed role "
     "(input-model latin-1 text, application flag, abstract method, application's own value, Accept pair, fallback search, "
     "regex-matched number, octal escape, ASCII bytes, range constructor, validated constructor) re-establishes its premise "
     "on every run on the code as it is shaped now; a premise anchor of an unknown shape is ANALYSIS-ERROR, a false premise "
@@ -62,13 +69,17 @@ LEVEL_TEXT = (
     "urllib.parse.unquote / unquote_plus / parse_qsl / parse_qs, codecs.decode) in a function reachable from the entry "
     "points or from the two Request constructors, the *value* of the handler that reaches it (constant, conditional "
     "expression, local through reaching definitions, module constant, parameter default and the arguments of every call "
-    "site of a private function) is one under which the result holds no lone surrogate: strict (raises: R7.1's business), "
+    "site of a private function, self.<class attribute> over the class, its bases and subclasses and the stores into it, "
+    "the elements of a tuple assignment, a key of a `**mapping` whose keys fold, an expression over module constants such as "
+    "a table indexed by a constant) is one under which the result holds no lone surrogate: strict (raises: R7.1's business), "
     "replace, ignore, backslashreplace, or a handler registered by the package whose function hands back percent-quoted or "
     "constant surrogate-free text; surrogateescape / surrogatepass (lone surrogates, on which every later str.encode() to "
     "UTF-8 and urllib.parse.quote() raise UnicodeEncodeError - the premise of the model entry 'utf-8 is total'), the "
     "encode-only handlers xmlcharrefreplace / namereplace (TypeError on the first undecodable byte) and unknown names "
     "(LookupError) are violations, a handler that is not a finite set of constant texts is ANALYSIS-ERROR (a decode from "
-    "latin-1 never asks its handler and is skipped). _wsgi_decoding_dance's own handler must in addition be non-strict. "
+    "latin-1 never asks its handler and is skipped). _wsgi_decoding_dance's own handler must in addition be non-strict, and "
+    "the two parse_qsl / parse_qs calls must get a registered handler - both looked for in the function and in the package "
+    "helpers it calls (two levels), the handler decided by its value as above. "
     "(R7.4) every regular expression constant (module-level re.compile constant or constant pattern handed to a function "
     "of re) applied in those functions is parsed (re._parser; nothing is matched) and has no unbounded backtracking repeat "
     "R{n,} such that (1) one alternative of R's body, taken as a whole, can match c*j for arbitrarily large j for some "
@@ -320,6 +331,13 @@ def _guard_idiom(an: A, s: Site, e: str) -> str | None:
         got = flow.minlen(fi, sub.value, node)  # type: ignore[attr-defined]
         if got >= need:
             return f"`{norm(sub.value)}` has at least {got if got < INF else 'any number of'} element(s) on every path (value origins: tuple / split / regex group widths, dominating tests, call sites): index {val} exists"  # type: ignore[attr-defined]
+        return None
+    if s.kind == "encode" and e == "UnicodeEncodeError" and isinstance(s.node, ast.Call):
+        # a strict encode to ascii / latin-1 (or another codec that holds ASCII) of a text that is ASCII-only on every path
+        # to it: `x.isascii()` in any polarity / early-return spelling instead of try / except UnicodeEncodeError
+        cc = codec_call(s.node)
+        if cc is not None and cc[0] == "encode" and (cc[2] or "") in _ASCII_CODECS | _ASCII_COMPATIBLE and flow.ascii_only(fi, cc[1], node):
+            return f"`{norm(cc[1])}` holds only ASCII characters on every path to the encode (a dominating test that means `is ASCII`, or the value's origin, or the argument at every call site) and is not rebound in between: every ASCII-compatible codec takes it"
         return None
     return None
 
@@ -800,7 +818,40 @@ TEXT_DECODERS = {
     "urllib.parse.unquote": (2, "replace"), "urllib.parse.unquote_plus": (2, "replace"),
     "urllib.parse.parse_qsl": (4, "replace"), "urllib.parse.parse_qs": (4, "replace"), "codecs.decode": (2, "strict"),
 }
-LATIN1 = ("latin1", "latin-1", "iso-8859-1", "iso8859-1", "l1", "latin")
+LATIN1 = tuple(sorted(_LATIN1_CODECS))
+
+
+class _AnyOf(ast.AST):
+    """one of several expressions (the values a `**mapping` may hold under one key)."""
+
+    _fields = ()
+
+    def __init__(self, alts: list[ast.AST]):
+        super().__init__()
+        self.alts = alts
+
+
+def _errors_expr(folder: Folder, f: FuncInfo, c: ast.Call, pos: int, name: str = "errors") -> tuple[ast.AST | None, bool]:
+    """(the expression handed to the `errors` parameter or None when it is left to its default, understood): positional,
+    keyword, or a key of a `**mapping` whose keys fold (display, dict(...), a local dict with its stores: _kw_table)."""
+    e = _arg(c, pos, name)
+    if e is not None:
+        return e, True
+    if any(isinstance(a, ast.Starred) for a in c.args):
+        return None, False
+    alts: list[ast.AST] = []
+    for kw in c.keywords:
+        if kw.arg is None:
+            tbl = _kw_table(folder, f, kw.value)
+            if tbl is None:
+                return None, False
+            for v in tbl.get(name, []):
+                if v is None:
+                    return None, False
+                alts.append(v)
+    if not alts:
+        return None, True
+    return (alts[0] if len(alts) == 1 else _AnyOf(alts)), True
 
 
 class _Texts:
@@ -827,6 +878,9 @@ class _Texts:
             return None
         if isinstance(e, ast.Constant):
             return {e.value} if isinstance(e.value, str) else None
+        if isinstance(e, _AnyOf):
+            parts_ = [self.of(fi, x, at, depth + 1) for x in e.alts]
+            return None if any(x is None for x in parts_) else set().union(*parts_)  # type: ignore[arg-type]
         if isinstance(e, ast.IfExp):
             a, b = self.of(fi, e.body, at, depth + 1), self.of(fi, e.orelse, at, depth + 1)
             return None if a is None or b is None else a | b
@@ -857,6 +911,12 @@ class _Texts:
             for d in defs:
                 if d.kind in ("assign", "walrus") and d.index is None and d.value is not None and d.stmt is not None:
                     got = self.of(fi, d.value, d.stmt, depth + 1)
+                elif d.kind == "unpack" and d.index is not None and isinstance(d.value, (ast.Tuple, ast.List)) and d.stmt is not None:
+                    # `charset, errors = "utf-8", "replace"`: the element at the target's position
+                    tg = d.stmt.targets[0] if isinstance(d.stmt, ast.Assign) and len(d.stmt.targets) == 1 else None
+                    flat = isinstance(tg, (ast.Tuple, ast.List)) and len(tg.elts) == len(d.value.elts) and d.index < len(tg.elts) and tg.elts[d.index] is d.target
+                    plain = flat and not any(isinstance(x, ast.Starred) for x in list(tg.elts) + list(d.value.elts))  # type: ignore[union-attr]
+                    got = self.of(fi, d.value.elts[d.index], d.stmt, depth + 1) if plain else None
                 elif d.kind == "param":
                     got = self._param(fi, d.name, depth + 1)
                 else:
@@ -865,6 +925,8 @@ class _Texts:
                     return None
                 out |= got
             return out
+        if isinstance(e, ast.Attribute) and fi.cls is not None and fi.params and astq.is_self_attr(e, None, fi.params[0]):
+            return self._self_attr(fi, e.attr, depth + 1)
         d_ = dotted(e)
         if d_:
             fq = self.eff.repo.resolve(fi.module, d_, self.flow.local_imports(fi))
@@ -875,7 +937,53 @@ class _Texts:
                 except Exception:
                     return None
                 return {v} if isinstance(v, str) else None
+        if isinstance(e, (ast.Subscript, ast.Call, ast.BinOp, ast.JoinedStr)):
+            # an expression over module constants only (a table of handlers indexed by a constant key, ...)
+            local = set(fi.params) | {n.id for n in ast.walk(fi.node) if isinstance(n, ast.Name) and isinstance(n.ctx, (ast.Store, ast.Del))}
+            if not any(isinstance(n, ast.Name) and n.id in local for n in ast.walk(e)):
+                try:
+                    v = self.folder.expr(fi.module, e)
+                except Exception:
+                    return None
+                return {v} if isinstance(v, str) else None
         return None
+
+    def _self_attr(self, fi: FuncInfo, attr: str, depth: int) -> set[str] | None:
+        """self.<attr>: the class-level constants of that name in the classes of the package that can be `self` here (the
+        method's class, its bases and subclasses) and everything a method of those classes stores into it.  (A subclass of
+        the application that overrides the attribute is the application's own argument, like a public parameter.)"""
+        repo = self.eff.repo
+        classes = [k for k in repo.mro(fi.cls) if isinstance(k, ClassInfo)] + list(repo.subclasses(fi.cls.fq))  # type: ignore[union-attr]
+        out: set[str] = set()
+        found = False
+        for k in classes:
+            v = k.attrs.get(attr)
+            if v is not None:
+                if isinstance(v, ast.Call) or attr in k.methods:
+                    return None  # a descriptor / property: not a constant
+                try:
+                    val = self.folder.expr(k.module, v)
+                except Exception:
+                    return None
+                if not isinstance(val, str):
+                    return None
+                out.add(val)
+                found = True
+            elif attr in k.methods:
+                return None
+            for m in k.methods.values():
+                sn = m.params[0] if m.params else "self"
+                for s_ in walk_no_nested(m.node):
+                    tgs = s_.targets if isinstance(s_, ast.Assign) else [s_.target] if isinstance(s_, (ast.AnnAssign, ast.AugAssign)) else []
+                    if any(astq.is_self_attr(tg, attr, sn) for tg in tgs):
+                        if not isinstance(s_, (ast.Assign, ast.AnnAssign)) or s_.value is None:
+                            return None
+                        got = self.of(m, s_.value, s_, depth + 1)
+                        if got is None:
+                            return None
+                        out |= got
+                        found = True
+        return out if found else None
 
     def _param(self, g: FuncInfo, pname: str, depth: int) -> set[str] | None:
         a = g.node.args  # type: ignore[attr-defined]
@@ -969,7 +1077,7 @@ def _extended_reach(eff: Effects, roots: list[FuncInfo]) -> dict[str, FuncInfo]:
     return out
 
 
-def _decode_sites(eff: Effects, f: FuncInfo) -> list[tuple[ast.Call, str | None, ast.AST | None, str]]:
+def _decode_sites(eff: Effects, f: FuncInfo, folder: Folder | None = None) -> list[tuple[ast.Call, str | None, ast.AST | None, str]]:
     """(call, encoding or None when not constant, errors expression or None when left out, default handler) for every
     operation in f that makes text from bytes / percent-escapes under an errors handler."""
     out = []
@@ -977,21 +1085,21 @@ def _decode_sites(eff: Effects, f: FuncInfo) -> list[tuple[ast.Call, str | None,
     for c in walk_no_nested(f.node):
         if not isinstance(c, ast.Call):
             continue
-        dyn = any(k.arg is None for k in c.keywords) or any(isinstance(a, ast.Starred) for a in c.args)
-        cc = codec_call(c)
         d = dotted(c.func)
         fq = eff.repo.resolve(f.module, d, li) if d else None
-        if cc is not None and cc[0] == "decode":
+        cp = codec_parts(c, fq)
+        cc = codec_call(c, fq)
+        if cp is not None and cc is not None and cc[0] == "decode":
             if isinstance(c.func, ast.Attribute) and fq and fq.startswith("werkzeug."):
                 continue
-            err = astq.arg_or_kw(c, 1, "errors") if isinstance(c.func, ast.Attribute) else astq.arg_or_kw(c, 2, "errors")
-            if dyn and err is None:
+            err = cp[3]
+            if cp[4] and (err is None or cp[2] is None):
                 raise AnalysisError(f"C07 R7.3: {f.qualname}: `{norm(c)[:60]}` passes its arguments by unpacking: the errors handler is not known")
             out.append((c, cc[2], err, "strict"))
         elif fq in TEXT_DECODERS:
             pos, default = TEXT_DECODERS[fq]
-            err = astq.arg_or_kw(c, pos, "errors")
-            if dyn and err is None:
+            err, understood = _errors_expr(folder, f, c, pos) if folder is not None else (_arg(c, pos, "errors"), not _opaque_args(c))
+            if not understood:
                 raise AnalysisError(f"C07 R7.3: {f.qualname}: `{norm(c)[:60]}` passes its arguments by unpacking: the errors handler is not known")
             out.append((c, None if fq != "codecs.decode" else "?", err, default))
     return out
@@ -1022,7 +1130,7 @@ def _r73_surrogates(ctx: Ctx, eff: Effects, texts: "_Texts", registered_fn: dict
     n = 0
     for fq in sorted(reach):
         f = reach[fq]
-        for c, enc, err, default in _decode_sites(eff, f):
+        for c, enc, err, default in _decode_sites(eff, f, texts.folder):
             if enc in LATIN1:
                 continue  # every byte decodes: the handler is never asked
             vals = {default} if err is None else texts.of(f, err, c)
@@ -1054,31 +1162,47 @@ def _r73(ctx: Ctx, eff: Effects, folder: Folder, registered: set[str], flow: Flo
     nq = 0
     for fq in ("sansio.request.Request.args", "formparser.FormDataParser._parse_urlencoded"):
         f = repo.func(fq)
-        for c in astq.name_calls(f.node, "parse_qsl"):
-            nq += 1
-            e = astq.arg_or_kw(c, 4, "errors")
-            val = astq.const_str(e) if e is not None else None
-            if val is None and e is not None and dotted(e):
-                try:
-                    v = folder.name(f.module, dotted(e))
-                    val = v if isinstance(v, str) else None
-                except Exception:
-                    val = None
-            ok = val is not None and val in registered
-            ctx.ob("R7.3", f"{f.qualname}: parse_qsl decodes with a registered lenient handler", ok, f"errors={norm(e) if e is not None else None}; registered handlers: {sorted(registered)}", f, c, f"{fq} parse_qsl errors")
+        # the query-string decoder the function runs: in the function itself or in a package helper it calls (two levels)
+        where: list[FuncInfo] = [f]
+        for _ in range(2):
+            for g_ in list(where):
+                for h, _n in eff.callees(g_):
+                    if h not in where and h.fq.startswith("werkzeug."):
+                        where.append(h)
+        for g_ in where:
+            li = flow.local_imports(g_)
+            for c in walk_no_nested(g_.node):
+                d = dotted(c.func) if isinstance(c, ast.Call) else None
+                if not d or repo.resolve(g_.module, d, li) not in ("urllib.parse.parse_qsl", "urllib.parse.parse_qs"):
+                    continue
+                nq += 1
+                e, understood = _errors_expr(folder, g_, c, 4)
+                vals = texts.of(g_, e, c) if e is not None else {"replace"}
+                if not understood or vals is None:
+                    raise AnalysisError(f"C07 R7.3: {g_.qualname}: the errors handler of `{norm(c)[:60]}` is not a known finite set of constant texts")
+                ok = all(v in registered for v in vals)
+                ctx.ob("R7.3", f"{f.qualname}: parse_qsl decodes with a registered lenient handler", ok, f"errors={norm(e) if e is not None and not isinstance(e, _AnyOf) else None if e is None else 'one of several'} (value(s) {sorted(vals)}); registered handlers: {sorted(registered)}", g_, c, f"{fq} parse_qsl errors")
     ctx.floor("R7.3", "parse_qsl calls", nq, 2)
     dd = repo.func("_internal._wsgi_decoding_dance")
-    decs = [cc for cc in (codec_call(c) for c in astq.calls(dd.node)) if cc is not None and cc[0] == "decode"]
-    if not decs:
-        raise AnalysisError("C07 R7.3: no decoding operation found in _wsgi_decoding_dance")
+    # the decoding may sit in the function itself or in the package helpers it hands the value to (two levels)
+    where: list[FuncInfo] = [dd]
+    for _ in range(2):
+        for g_ in list(where):
+            for h, _n in eff.callees(g_):
+                if h not in where and h.fq.startswith("werkzeug."):
+                    where.append(h)
+    found = [(g_, site) for g_ in where for site in _decode_sites(eff, g_, folder)]
+    if not found:
+        raise AnalysisError("C07 R7.3: no decoding operation found in _wsgi_decoding_dance (or in the helpers it calls)")
     seen_vals = []
     ok = True
-    for c, enc, err, default in _decode_sites(eff, dd):
+    for g_, (c, enc, err, default) in found:
         if enc in LATIN1:
             seen_vals.append((norm(c)[:40], enc, "any"))
             continue
-        vals = {default} if err is None else texts.of(dd, err, c)
-        seen_vals.append((norm(c.func.value if isinstance(c.func, ast.Attribute) else c.args[0])[:40], enc, sorted(vals) if vals is not None else None))
+        vals = {default} if err is None else texts.of(g_, err, c)
+        cp = codec_parts(c)
+        seen_vals.append((norm(cp[1] if cp is not None else c.args[0] if c.args else c)[:40], enc, sorted(vals) if vals is not None else None))
         # lenient and harmless: a handler that neither raises nor plants lone surrogates (value of the handler, not its spelling)
         ok = ok and vals is not None and all(h != "strict" and handler_ok(h)[0] is True for h in vals)
     ctx.ob("R7.3", "_wsgi_decoding_dance decodes with errors='replace'", ok, f"{seen_vals}", dd, dd.node, "decoding dance lenient")
